@@ -42,7 +42,7 @@ ASSUMPTIONS = ["'BitTorrent-shaped' and 'IPv8-shaped' are read from the property
                "once the outside socket is open, data cells from other IPs that carry the right keys are not restricted by the "
                "statement (only the *opening* is)"]
 REACH = ["emitted_allowed", "blocked_forbidden_outbound", "blocked_forbidden_inbound", "inbound_tunnelled_allowed",
-         "null_destination_dropped", "domain_resolved", "domain_failed", "ipv6_emitted", "colluder_refused", "queued_before_open",
+         "null_destination_dropped", "domain_resolved", "domain_failed", "ipv6_emitted", "colluder_refused", "queued_before_open", "null_destination_as_host_name", "reentry_through_own_circuit",
          "flagset:0", "flagset:bt", "flagset:ipv8", "flagset:bt+ipv8"]
 
 BT, IPV8F, RELAY, SPEED = 2, 4, 1, 8
@@ -144,14 +144,15 @@ def execute(case: dict) -> dict:  # noqa: C901, PLR0915
     flags = set(fs) | ({RELAY} if case["relay"] else set()) | {SPEED}
     hops = case["hops"]
     world.probe("flagset:" + ("+".join(n for n, f in (("bt", BT), ("ipv8", IPV8F)) if f in fs) or "0"))
-    # nodes: 0 originator, 1 relay, 2 exit under test, 3 colluder (plain node)
-    tw = TunnelWorld(c, n=4, exits=(), flags={0: {RELAY, SPEED}, 1: {RELAY, SPEED}, 2: flags, 3: {SPEED}})
+    # nodes: 0 originator, 1 relay, 2 exit under test, 3 colluder (plain node), 4 a second exit (for a circuit the node under test builds
+    # for itself)
+    tw = TunnelWorld(c, n=5, exits=(), flags={0: {RELAY, SPEED}, 1: {RELAY, SPEED}, 2: flags, 3: {SPEED}, 4: {RELAY, BT, IPV8F, SPEED}})
     st: dict = {}
 
     async def main() -> None:  # noqa: C901, PLR0912, PLR0915
         await tw.build()
         await tw.introduce()
-        o, r, x, col = tw.nodes
+        o, r, x, col, y = tw.nodes
         own_prefix = x.ov.get_prefix()
         st["own_prefix"] = own_prefix
         w4 = tw.add_outside("w4", "9.9.9.9", 7000, ip6="2001:db8::9")
@@ -193,6 +194,7 @@ def execute(case: dict) -> dict:  # noqa: C901, PLR0915
                         b[1] = rng.choice([0, 1, 2, 3, 4])
                     payloads.append(bytes(b))
         st["payloads"] = payloads
+        st["canaries_pre"] = [b"d" + b"7:nullhst" + b"e", b"\x00\x02" + b"\x66" * 30]
         dests = [UDPv4Address("9.9.9.9", 7000), UDPv6Address("2001:db8::9", 7000), DomainAddress("tracker.example", 7000),
                  DomainAddress("nowhere.example", 7000), ("0.0.0.0", 0)]
         # --- colluder first: the outside socket must not be opened by data from a foreign IP
@@ -217,6 +219,33 @@ def execute(case: dict) -> dict:  # noqa: C901, PLR0915
                           f"{col.address} (previous hop is {r.address})")
             else:
                 world.probe("colluder_refused")
+        # --- re-entry: the node under test is also the ORIGINATOR of a circuit of its own (through the second exit).  An outside host
+        # answers into that circuit with a datagram that looks like a data message of the tunnel overlay, naming the id of the circuit
+        # the node is EXIT for (whose outside socket nobody has opened yet): it does not come from that circuit's previous hop
+        ypeer = next((p for p in x.ov.get_peers() if p.public_key.key_to_bin() == y.my_peer.public_key.key_to_bin()), None)
+        if exit_cid is not None and ypeer is not None and case.get("reentry", True):
+            from ipv8.messaging.serialization import Serializer
+            ser2 = Serializer()
+            circ_c = await tw.build_circuit(x, 1, required_exit=ypeer, tries=2)
+            if circ_c is not None:
+                w5 = tw.add_outside("w5", "9.9.8.8", 7001)
+                w5.reply = None
+                x.call(x.ov.send_data, circ_c.hop.address, circ_c.circuit_id, UDPv4Address("9.9.8.8", 7001), ("0.0.0.0", 0),
+                       b"d" + b"4:open" + b"e")
+                await asyncio.sleep(1.0)
+                nested = own_prefix + b"\x01" + exit_cid.to_bytes(4, "big") + ser2.pack("address", ("9.9.9.9", 7000)) + \
+                    ser2.pack("address", ("0.0.0.0", 0)) + b"d" + b"7:reentry" + b"e"
+                for src in sorted({s5 for _t, _d, s5 in w5.received}):
+                    w5.transport.sendto(nested, src)
+                    world.probe("reentry_through_own_circuit")
+                await asyncio.sleep(1.5)
+                es = x.ov.exit_sockets.get(exit_cid)
+                opened = [t for t in net.all_transports if t.owner == x.name and t.port != x.port and not t.closed]
+                if (es is not None and es.enabled) or opened:
+                    c.violate("open_only_by_previous_hop", "outside_socket_opened_by_foreign_ip",
+                              f"exit socket enabled={es.enabled if es else None}, transports={len(opened)} after a data message that "
+                              f"re-entered through the node's own circuit from an outside host (previous hop is {r.address if hops == 2 else o.address})")
+                x.call(x.ov.remove_circuit, circ_c.circuit_id, "c06 re-entry done", destroy=1)
         # --- outbound sweep (first burst lands while the transports are still being created: queue of 10)
         k = 0
         for p in payloads:
@@ -229,6 +258,19 @@ def execute(case: dict) -> dict:  # noqa: C901, PLR0915
             elif k % 25 == 0:
                 await asyncio.sleep(0.02)
         await asyncio.sleep(4.0)
+        # --- destinations the library's own packer would never produce: the null address spelt as a HOST NAME ("0.0.0.0", port 0), and an
+        # ordinary host name with port 0.  Hand-made data cells, correctly encrypted for the circuit.
+        from ipv8.messaging.anonymization.payload import CellPayload
+        ce = o.ov.crypto_endpoint
+        for host in (b"0.0.0.0", b"tracker.example"):
+            for p in st["canaries_pre"]:
+                dest = b"\x02" + len(host).to_bytes(2, "big") + host + (0).to_bytes(2, "big")
+                org = b"\x01" + bytes(6)
+                cellp = CellPayload(circ.circuit_id, b"\x01" + dest + org + p, False, False)
+                ce.encrypt_cell(cellp, 0, *circ.hops)
+                o.call(ce.endpoint.send, circ.hop.address, cellp.to_bin(ce.prefix))
+                world.probe("null_destination_as_host_name")
+        await asyncio.sleep(2.0)
         # canaries for non-vacuity: one plainly BitTorrent-shaped and one plainly IPv8-shaped payload to the IPv4 server
         st["canaries"] = [b"d" + b"6:canary" + b"e", b"\x00\x02" + b"\x77" * 30]
         for p in st["canaries"]:
@@ -267,7 +309,7 @@ def execute(case: dict) -> dict:  # noqa: C901, PLR0915
                 # left through an exit socket
                 d = pkt.data
                 sent_out.add(d)
-                if pkt.dst[0] in ("0.0.0.0", "::") or pkt.dst[1] == 0:
+                if pkt.dst[0] == "0.0.0.0" and pkt.dst[1] == 0:       # (the statement names exactly this address)
                     c.violate("no_null_destination", "emitted_to_null_destination", f"exit emitted {len(d)} bytes to {pkt.dst}")
                 if not allowed(fs, d, own):
                     c.violate("outbound_policy", f"forbidden_payload_emitted:bt={is_bt(d)},ipv8={is_ipv8(d)}",
